@@ -101,7 +101,7 @@ func (g *Gen) Str(pool []string) string {
 	return pool[g.R.Intn(len(pool))]
 }
 
-var strPool = []string{"", "a", "B", "ab", "Ab", "aB", "ba", "(a", "a)", "a.b", "x*y", "a+", "[z]", "q?", "^a", "a$", "a|b",
+var strPool = []string{"10", "9", "1.0", "1", "007", "1e1", "", "a", "B", "ab", "Ab", "aB", "ba", "(a", "a)", "a.b", "x*y", "a+", "[z]", "q?", "^a", "a$", "a|b",
 	"héllo", "HÉLLO", "a b", "%", "_", "abc", "ABC", "b"}
 var patPool = []string{"", "%", "_", "a%", "%a", "%b%", "_b", "a_", "(%", "%)", "a.b", "a.%", "x*%", "%+", "[%]", "q?", "^%", "%$", "a|b",
 	"h_llo", "%LLO", "a b", "a%b%", "__", "%_%", "ABC", "abc"}
@@ -263,10 +263,15 @@ func (g *Gen) Atom(cols []ColSpec) Node {
 // RecordEngine runs q on doc (both abstract) with the real library and writes
 // the call / stage / ret events of the top-level query.
 func RecordEngine(w io.Writer, q Node, doc Node, st Style, options []string) (events int, out Outcome) {
+	return RecordEngineOn(w, q, doc, FromTagged(doc).(map[string]any), st, options)
+}
+
+// RecordEngineOn is RecordEngine on an existing real document (a history of statements
+// sharing one input): the call event carries the document as the caller first built it.
+func RecordEngineOn(w io.Writer, q Node, doc Node, real map[string]any, st Style, options []string) (events int, out Outcome) {
 	enc := json.NewEncoder(w)
 	enc.Encode(Node{"ev": "call", "q": q, "doc": doc})
 	events++
-	real := FromTagged(doc).(map[string]any)
 	out = Run(real, st.Query(q), true, Opts(options, nil, nil)...)
 	for _, e := range out.Stages {
 		if !e.Top {
@@ -298,7 +303,14 @@ func init() {
 			rows := g.Rows(cols, g.R.Intn(9))
 			doc := TObj(Node{"t": TArr(rows)})
 			q := With(BaseQ(), "where", g.Pred(cols, 1+g.R.Intn(5)))
-			ev, out := RecordEngine(w, q, doc, Style{}, nil)
+			real := FromTagged(doc).(map[string]any)
+			ev, out := RecordEngineOn(w, q, doc, real, Style{}, nil)
+			if g.R.Intn(2) == 0 {
+				// a second statement (the negation) on the same document object
+				ev2, _ := RecordEngineOn(w, With(q, "where", NotE(q["where"].(Node))), doc, real, Style{}, nil)
+				ev += ev2
+				info.Queries++
+			}
 			info.Queries++
 			info.Events += ev
 			if len(info.Samples) < 3 {
